@@ -1089,6 +1089,13 @@ func (g *jg) function(sb *strings.Builder, d int, _ string) {
 	var pdecl []string
 	var pvars []*vr
 	form := g.pick(100, "fform")
+	if form < 60 && !g.atFunctionTop() {
+		// A function declaration inside a nested block is hoisted to the
+		// enclosing function in sloppy mode (Annex B.3.3) and would stay
+		// visible after the block, which the scope model here does not
+		// follow; nested blocks get function expressions instead.
+		form = 60 + form/3
+	}
 	destructured := false
 	for i := 0; i < np; i++ {
 		var pn string
@@ -1225,7 +1232,12 @@ func (g *jg) closure(sb *strings.Builder) {
 	g.note("local", p)
 	g.note("param", p)
 	g.note("local", c)
-	w("function " + name + "(" + p + ") {")
+	declForm := g.atFunctionTop()
+	if declForm {
+		w("function " + name + "(" + p + ") {")
+	} else {
+		w("const " + name + " = function (" + p + ") {")
+	}
 	w("  let " + c + " = " + p + ";")
 	w("  return function () {")
 	w("    " + c + " += 1;")
@@ -1237,7 +1249,11 @@ func (g *jg) closure(sb *strings.Builder) {
 		g.note("in-template", p)
 	}
 	w("  };")
-	w("}")
+	if declForm {
+		w("}")
+	} else {
+		w("};")
+	}
 	fv := g.declare(&vr{name: name, typ: tF, ret: 'X'}, "function")
 	inst := g.declare(&vr{name: g.fresh("inst"), typ: tF, ret: 'X'}, "const")
 	w("const " + inst.name + " = " + g.ref(fv) + "(" + g.exprN(1) + ");")
